@@ -40,18 +40,18 @@ package tabular
 
 //@ func (*ErrorContainer).AddError
 //@   tags C11,C09
-//@   assigns ec.errors_, elemscap(ec.errors_)
+//@   assigns when ec != nil: ec.errors_, when ec != nil: elemscap(ec.errors_)
 //@   ensures [nil-receiver] ec == nil ==> true
 //@   ensures [nil-error-noop] ec != nil && err == nil ==> ec.errors_ == old(ec.errors_)
 //@   ensures [appended] ec != nil && err != nil ==> len(ec.errors_) == old(len(ec.errors_)) + 1 && ec.errors_[len(ec.errors_)-1] == err
 //@   ensures [prefix] ec != nil ==> forall i int :: {ec.errors_[i]} {old(ec.errors_[i])} 0 <= i && i < old(len(ec.errors_)) ==> ec.errors_[i] == old(ec.errors_[i])
 //@   ensures [no-nil] old(nonnil(ec)) ==> nonnil(ec)
-//@   ensures [arr] ec != nil ==> ec.errors_.arr == old(ec.errors_.arr) || fresh(ec.errors_)
+//@   ensures [arr] ec != nil ==> (ec.errors_.arr == old(ec.errors_.arr) && ec.errors_.off == old(ec.errors_.off) && ec.errors_.cap == old(ec.errors_.cap)) || fresh(ec.errors_)
 
 //@ func (*ErrorContainer).AddErrorList
 //@   tags C11,C09
 //@   requires [disjoint] ec != nil ==> len(el) == 0 || el.arr != ec.errors_.arr
-//@   assigns ec.errors_, elemscap(ec.errors_)
+//@   assigns when ec != nil: ec.errors_, when ec != nil: elemscap(ec.errors_)
 //@   ensures [count] ec != nil ==> len(ec.errors_) == old(len(ec.errors_)) + nn(old(heap[error]), el, len(el))
 //@   ensures [prefix] ec != nil ==> forall i int :: {ec.errors_[i]} {old(ec.errors_[i])} 0 <= i && i < old(len(ec.errors_)) ==> ec.errors_[i] == old(ec.errors_[i])
 //@   ensures [in-order] ec != nil ==> forall k int :: {el[k]} 0 <= k && k < len(el) && old(el[k]) != nil ==> ec.errors_[old(len(ec.errors_)) + nn(old(heap[error]), el, k)] == old(el[k])
@@ -233,7 +233,6 @@ package tabular
 //@   exit unfold chainOK(heap[valueProperty.chain], heap[valueProperty.key], heap[valueProperty.val], result1)
 //@   exit unfold forall k Iface :: lookup(heap[valueProperty.chain], heap[valueProperty.key], heap[valueProperty.val], result1, k)
 
-
 //@ globalinv ErrMissingPropertyHolder != nil @C12
 //@ globalinv noProperty != nil @C12
 
@@ -250,3 +249,190 @@ package tabular
 //@   exit use chain_frame(at(S1, heap[valueProperty.chain]), at(S1, heap[valueProperty.key]), at(S1, heap[valueProperty.val]), heap[valueProperty.chain], heap[valueProperty.key], heap[valueProperty.val], remainder, at(S1, alloc))
 //@   exit unfold chainOK(heap[valueProperty.chain], heap[valueProperty.key], heap[valueProperty.val], pi.properties)
 //@   exit unfold forall k Iface :: lookup(heap[valueProperty.chain], heap[valueProperty.key], heap[valueProperty.val], pi.properties, k)
+
+//@ -- ---------------------------------------------------------------------
+//@ -- table structure (C02, C09, C11): representation invariant WF and the building operations
+//@ -- ---------------------------------------------------------------------
+
+//@ -- cellsOK(r): every cell of r knows its row and its 1-based column (W3)
+//@ pred cellsOK(r *Row) = forall j int :: {r.cells[j].columnNum} {r.cells[j].inRow} 0 <= j && j < len(r.cells) ==> r.cells[j].columnNum == j+1 && r.cells[j].inRow == r
+
+//@ -- WFrow(r): a cell row that is not (yet) attached to a table
+//@ pred WFrow(r *Row) = r != nil && !r.isSeparator && r.cells != nil && r.inTable == nil && cellsOK(r)
+
+//@ -- rowIn(t, r, i): r is the i-th (0-based) row of t (W2, W3, W4, W6 and the >= half of W5)
+//@ pred rowIn(t *ATable, r *Row, i int) = r != nil && r.inTable == t && r.rowNum == i+1 && r.ErrorContainer == t.ErrorContainer && (r.isSeparator ==> r.cells == nil) && (!r.isSeparator ==> r.cells != nil && cellsOK(r) && len(r.cells) <= t.nColumns)
+
+//@ -- hdrOK(t, h): h is a well-formed header row of t
+//@ pred hdrOK(t *ATable, h *Row) = !h.isSeparator && h.cells != nil && cellsOK(h) && len(h.cells) <= t.nColumns && h.ErrorContainer == t.ErrorContainer
+
+//@ -- colsOK(t): the column records (index 0 is the defaults column) are live, distinct and belong to t (W7)
+//@ pred colsOK(t *ATable) = (forall i int :: {t.columns[i]} 0 <= i && i < len(t.columns) ==> t.columns[i] != nil && t.columns[i].ofTable == t) && (forall i int, k int :: {t.columns[i], t.columns[k]} 0 <= i && i < k && k < len(t.columns) ==> t.columns[i] != t.columns[k])
+
+//@ -- WF(t): the representation invariant of a table
+//@ pred WF(t *ATable) = t != nil && t.ErrorContainer != nil && nonnil(t.ErrorContainer) && t.nColumns >= 0 && len(t.columns) == t.nColumns + 1 && (forall i int :: {t.rows[i]} 0 <= i && i < len(t.rows) ==> rowIn(t, t.rows[i], i)) && colsOK(t) && (t.headerRow != nil ==> hdrOK(t, t.headerRow)) && (forall i int, k int :: {t.rows[i], t.rows[k]} 0 <= i && i < k && k < len(t.rows) && t.rows[i].cells != nil ==> t.rows[i].cells.arr != t.rows[k].cells.arr) && (forall i int :: {t.rows[i]} 0 <= i && i < len(t.rows) && t.headerRow != nil ==> t.rows[i] != t.headerRow && t.rows[i].cells.arr != t.headerRow.cells.arr)
+
+//@ func (*ATable).NColumns
+//@   tags C02,C09
+//@   requires t != nil
+//@   assigns nothing
+//@   ensures result == t.nColumns
+
+//@ func (*ATable).NRows
+//@   tags C02,C09
+//@   requires t != nil
+//@   assigns nothing
+//@   ensures result == len(t.rows)
+
+//@ func (*Row).IsSeparator
+//@   tags C02,C09
+//@   requires r != nil
+//@   assigns nothing
+//@   ensures result == r.isSeparator
+
+//@ func (*Row).Cells
+//@   tags C02,C09
+//@   requires r != nil
+//@   assigns nothing
+//@   ensures result === r.cells
+
+//@ func (*ATable).Headers
+//@   tags C02,C09
+//@   requires t != nil
+//@   assigns nothing
+//@   ensures t.headerRow == nil ==> result == nil
+//@   ensures t.headerRow != nil ==> result === t.headerRow.cells
+
+//@ func (*Row).Location
+//@   tags C02,C09
+//@   requires r != nil
+//@   assigns nothing
+//@   ensures result.Row == r.rowNum && result.Column == 0
+
+//@ func (Cell).Location
+//@   tags C02,C09
+//@   assigns nothing
+//@   ensures result.Column == c.columnNum
+//@   ensures c.inRow != nil ==> result.Row == c.inRow.rowNum
+//@   ensures c.inRow == nil ==> result.Row == 0
+
+//@ func (*ATable).Column
+//@   tags C02,C09,C12
+//@   requires t != nil && len(t.columns) == t.nColumns + 1
+//@   assigns nothing
+//@   ensures [exists-for-0..n] 0 <= n && n <= t.nColumns ==> result == t.columns[n]
+//@   ensures [nil-otherwise] (n < 0 || n > t.nColumns) ==> result == nil
+
+//@ func (*ATable).AllRows
+//@   tags C02,C09
+//@   requires t != nil
+//@   assigns nothing
+//@   ensures [copy] fresh(result) && len(result) == len(t.rows)
+//@   ensures [same-rows] forall i int :: {result[i]} 0 <= i && i < len(result) ==> result[i] == t.rows[i]
+
+//@ func (*ATable).CellAt
+//@   tags C02,C09
+//@   requires WF(t)
+//@   assigns nothing
+//@   ensures [found] 1 <= loc.Row && loc.Row <= len(t.rows) && !t.rows[loc.Row-1].isSeparator && 1 <= loc.Column && loc.Column <= len(t.rows[loc.Row-1].cells) ==> result1 == nil && result0 == &t.rows[loc.Row-1].cells[loc.Column-1]
+//@   ensures [found-location] result1 == nil ==> result0 != nil && result0.columnNum == loc.Column && result0.inRow != nil && result0.inRow.rowNum == loc.Row
+//@   ensures [no-such-cell] !(1 <= loc.Row && loc.Row <= len(t.rows) && !t.rows[loc.Row-1].isSeparator && 1 <= loc.Column && loc.Column <= len(t.rows[loc.Row-1].cells)) ==> result0 == nil && dyn(result1) == type[NoSuchCellError] && result1.(NoSuchCellError).Location == loc
+
+//@ func newSeparator
+//@   tags C02,C09
+//@   assigns nothing
+//@   ensures result != nil && fresh(result) && result.isSeparator && result.cells == nil && result.inTable == nil && result.ErrorContainer == nil && result.rowNum == 0 && result.properties == nil
+
+//@ func NewRowWithCapacity
+//@   tags C02,C09
+//@   requires [capacity-nonneg] 0 <= c && c <= 1099511627776
+//@   assigns nothing
+//@   ensures WFrow(result) && fresh(result) && len(result.cells) == 0 && fresh(result.cells) && result.ErrorContainer == nil && result.rowNum == 0 && result.properties == nil
+
+//@ func NewRow
+//@   tags C02,C09
+//@   assigns nothing
+//@   ensures WFrow(result) && fresh(result) && len(result.cells) == 0 && fresh(result.cells) && result.ErrorContainer == nil && result.rowNum == 0 && result.properties == nil
+
+//@ func (*ATable).NewRowSizedFor
+//@   tags C02,C09
+//@   requires t != nil && 0 <= t.nColumns && t.nColumns <= 1099511627776
+//@   assigns nothing
+//@   ensures WFrow(result) && fresh(result) && len(result.cells) == 0 && fresh(result.cells) && result.ErrorContainer == nil && result.rowNum == 0 && result.properties == nil
+
+//@ func (*ATable).resizeColumnsAtLeast
+//@   tags C02,C09,C12
+//@   requires t != nil && t.nColumns >= 0 && len(t.columns) == t.nColumns + 1 && colsOK(t) && newCount <= 1099511627775
+//@   assigns t.columns, t.nColumns, elemscap(t.columns), new(column)
+//@   ensures [count] t.nColumns == max(old(t.nColumns), newCount) && len(t.columns) == t.nColumns + 1
+//@   ensures [cols] colsOK(t)
+//@   ensures [handle-stable] forall i int :: {t.columns[i]} {old(t.columns[i])} 0 <= i && i <= old(t.nColumns) ==> t.columns[i] == old(t.columns[i])
+//@   ensures [new-columns-fresh] forall i int :: {t.columns[i]} old(t.nColumns) < i && i <= t.nColumns ==> fresh(t.columns[i]) && t.columns[i].properties == nil
+//@   ensures [no-shrink] newCount <= old(t.nColumns) ==> t.columns === old(t.columns)
+//@   loop#1 invariant -1 <= rangeindex && rangeindex < len(extraColumns) && len(extraColumns) == newCount - old(t.nColumns) && fresh(extraColumns) && t.columns === old(t.columns) && t.nColumns == old(t.nColumns)
+//@   loop#1 invariant forall k int :: {extraColumns[k]} 0 <= k && k <= rangeindex ==> extraColumns[k] != nil && fresh(extraColumns[k]) && extraColumns[k].ofTable == t && extraColumns[k].properties == nil
+//@   loop#1 invariant forall k int, j int :: {extraColumns[k], extraColumns[j]} 0 <= k && k < j && j <= rangeindex ==> extraColumns[k] != extraColumns[j]
+//@   loop#1 invariant colsOK(t)
+//@   loop#1 invariant forall i int :: {t.columns[i]} {old(t.columns[i])} 0 <= i && i < len(t.columns) ==> t.columns[i] == old(t.columns[i])
+//@   loop#1 decreases len(extraColumns) - rangeindex
+
+//@ -- ---------------------------------------------------------------------
+//@ -- callbacks and error routing (C11, C13)
+//@ -- ---------------------------------------------------------------------
+
+//@ -- propsCell(o): the location of the properties cell of a property owner
+//@ spec opaque propsCell(o Iface) Loc = dyn(o) == type[*ATable] ? fldloc(fldloc(o.(*ATable), 1), 0) : (dyn(o) == type[*Row] ? fldloc(fldloc(o.(*Row), 1), 0) : (dyn(o) == type[*Cell] ? fldloc(fldloc(o.(*Cell), 5), 0) : fldloc(fldloc(o.(*column), 4), 0)))
+
+//@ -- ownerOK(o): o is a live table, row, cell or column whose property chain is well-formed
+//@ pred ownerOK(o Iface) = ((dyn(o) == type[*ATable] && o.(*ATable) != nil) || (dyn(o) == type[*Row] && o.(*Row) != nil) || (dyn(o) == type[*Cell] && o.(*Cell) != nil) || (dyn(o) == type[*column] && o.(*column) != nil)) && chainOK(heap[valueProperty.chain], heap[valueProperty.key], heap[valueProperty.val], heap[propertyImpl.properties][propsCell(o)])
+
+//@ -- ecOf(e): the error container an ErrorReceiver resolves to (nil for a row that has none yet)
+//@ spec opaque ecOf(e Iface, h (Array Loc Loc)) *ErrorContainer = dyn(e) == type[*ErrorContainer] ? e.(*ErrorContainer) : h[fldloc(e.(*Row), 0)]
+//@ -- recvOK(e): a receiver that keeps what it is given: a live container, or a row (which creates one on demand)
+//@ pred recvOK(e Iface) = (dyn(e) == type[*ErrorContainer] && e.(*ErrorContainer) != nil) || (dyn(e) == type[*Row] && e.(*Row) != nil)
+//@ spec opaque errCount(ec *ErrorContainer, h (Array Loc Slice)) int = ec == nil ? 0 : len(h[fldloc(ec, 0)])
+
+//@ func (*Row).AddError
+//@   tags C11,C09
+//@   requires r != nil
+//@   assigns r.ErrorContainer, new(ErrorContainer), when r.ErrorContainer != nil: r.ErrorContainer.errors_, when r.ErrorContainer != nil: elemscap(r.ErrorContainer.errors_)
+//@   ensures [has-container] r.ErrorContainer != nil && (old(r.ErrorContainer) != nil ==> r.ErrorContainer == old(r.ErrorContainer)) && (old(r.ErrorContainer) == nil ==> fresh(r.ErrorContainer))
+//@   ensures [count] len(r.ErrorContainer.errors_) == errCount(old(r.ErrorContainer), old(heap[ErrorContainer.errors_])) + (e != nil ? 1 : 0)
+//@   ensures [appended] e != nil ==> r.ErrorContainer.errors_[len(r.ErrorContainer.errors_)-1] == e
+//@   ensures [prefix] old(r.ErrorContainer) != nil ==> forall i int :: {r.ErrorContainer.errors_[i]} {old(r.ErrorContainer.errors_[i])} 0 <= i && i < old(len(r.ErrorContainer.errors_)) ==> r.ErrorContainer.errors_[i] === old(r.ErrorContainer.errors_[i])
+//@   ensures [no-nil] old(nonnil(r.ErrorContainer)) ==> nonnil(r.ErrorContainer)
+//@   ensures [arr] old(r.ErrorContainer) != nil ==> (r.ErrorContainer.errors_.arr == old(r.ErrorContainer.errors_.arr) && r.ErrorContainer.errors_.off == old(r.ErrorContainer.errors_.off) && r.ErrorContainer.errors_.cap == old(r.ErrorContainer.errors_.cap)) || fresh(r.ErrorContainer.errors_)
+//@   ensures [new-list-fresh] old(r.ErrorContainer) == nil ==> fresh(r.ErrorContainer.errors_)
+
+//@ iface ErrorReceiver.AddError
+//@   dispatch (*ErrorContainer).AddError, (*Row).AddError
+
+//@ func invokePropertyCallbacks
+//@   tags C11,C13,C09
+//@   requires [valid-time] 0 <= t && t <= 3
+//@   requires [owner] ownerOK(owner)
+//@   requires [receiver-keeps-errors] recvOK(errTaker)
+//@   requires [callbacks-live] forall i int :: {set.addTime[i]} 0 <= i && i < len(set.addTime) ==> set.addTime[i] != nil
+//@   requires [callbacks-live] forall i int :: {set.renderTime[i]} 0 <= i && i < len(set.renderTime) ==> set.renderTime[i] != nil
+//@   requires [callbacks-live] forall i int :: {set.preCellRenderTime[i]} 0 <= i && i < len(set.preCellRenderTime) ==> set.preCellRenderTime[i] != nil
+//@   requires [callbacks-live] forall i int :: {set.postCellRenderTime[i]} 0 <= i && i < len(set.postCellRenderTime) ==> set.postCellRenderTime[i] != nil
+//@   assigns loc(propertyImpl.properties, propsCell(owner)), new(valueProperty), ghost cbErrN, ghost cbErrLog, when dyn(errTaker) == type[*Row]: loc(Row.ErrorContainer, fldloc(errTaker.(*Row), 0)), new(ErrorContainer), when ecOf(errTaker, heap[Row.ErrorContainer]) != nil: ecOf(errTaker, heap[Row.ErrorContainer]).errors_, when ecOf(errTaker, heap[Row.ErrorContainer]) != nil: elemscap(ecOf(errTaker, heap[Row.ErrorContainer]).errors_)
+//@   ensures [owner-props-ok] ownerOK(owner)
+//@   ensures [receiver] recvOK(errTaker) && (cbErrN > old(cbErrN) || old(ecOf(errTaker, heap[Row.ErrorContainer])) != nil ==> ecOf(errTaker, heap[Row.ErrorContainer]) != nil) && (old(ecOf(errTaker, heap[Row.ErrorContainer])) != nil ==> ecOf(errTaker, heap[Row.ErrorContainer]) == old(ecOf(errTaker, heap[Row.ErrorContainer])))
+//@   ensures [none-lost-none-duplicated] cbErrN >= old(cbErrN) && errCount(ecOf(errTaker, heap[Row.ErrorContainer]), heap[ErrorContainer.errors_]) == errCount(old(ecOf(errTaker, heap[Row.ErrorContainer])), old(heap[ErrorContainer.errors_])) + (cbErrN - old(cbErrN))
+//@   ensures [in-order] forall m int :: {cbErrLog[m]} old(cbErrN) <= m && m < cbErrN ==> ecOf(errTaker, heap[Row.ErrorContainer]).errors_[errCount(old(ecOf(errTaker, heap[Row.ErrorContainer])), old(heap[ErrorContainer.errors_])) + (m - old(cbErrN))] == cbErrLog[m]
+//@   ensures [earlier-errors-kept] old(ecOf(errTaker, heap[Row.ErrorContainer])) != nil ==> forall i int :: {old(ecOf(errTaker, heap[Row.ErrorContainer]).errors_[i])} 0 <= i && i < old(len(ecOf(errTaker, heap[Row.ErrorContainer]).errors_)) ==> ecOf(errTaker, heap[Row.ErrorContainer]).errors_[i] == old(ecOf(errTaker, heap[Row.ErrorContainer]).errors_[i])
+//@   ensures [no-nil] old(nonnil(ecOf(errTaker, heap[Row.ErrorContainer]))) ==> nonnil(ecOf(errTaker, heap[Row.ErrorContainer]))
+//@   ensures [log-prefix] forall j int :: {cbErrLog[j]} j < old(cbErrN) ==> cbErrLog[j] === old(cbErrLog[j])
+//@   loop#1 invariant -1 <= rangeindex && rangeindex < len(cbList)
+//@   loop#1 invariant forall i int :: {cbList[i]} 0 <= i && i < len(cbList) ==> cbList[i] != nil
+//@   loop#1 invariant ownerOK(owner)
+//@   loop#1 invariant recvOK(errTaker) && (cbErrN > old(cbErrN) || old(ecOf(errTaker, heap[Row.ErrorContainer])) != nil ==> ecOf(errTaker, heap[Row.ErrorContainer]) != nil) && (old(ecOf(errTaker, heap[Row.ErrorContainer])) != nil ==> ecOf(errTaker, heap[Row.ErrorContainer]) == old(ecOf(errTaker, heap[Row.ErrorContainer])))
+//@   loop#1 invariant cbErrN >= old(cbErrN) && errCount(ecOf(errTaker, heap[Row.ErrorContainer]), heap[ErrorContainer.errors_]) == errCount(old(ecOf(errTaker, heap[Row.ErrorContainer])), old(heap[ErrorContainer.errors_])) + (cbErrN - old(cbErrN))
+//@   loop#1 invariant forall m int :: {cbErrLog[m]} old(cbErrN) <= m && m < cbErrN ==> ecOf(errTaker, heap[Row.ErrorContainer]).errors_[errCount(old(ecOf(errTaker, heap[Row.ErrorContainer])), old(heap[ErrorContainer.errors_])) + (m - old(cbErrN))] == cbErrLog[m]
+//@   loop#1 invariant old(ecOf(errTaker, heap[Row.ErrorContainer])) != nil ==> forall i int :: {old(ecOf(errTaker, heap[Row.ErrorContainer]).errors_[i])} 0 <= i && i < old(len(ecOf(errTaker, heap[Row.ErrorContainer]).errors_)) ==> ecOf(errTaker, heap[Row.ErrorContainer]).errors_[i] == old(ecOf(errTaker, heap[Row.ErrorContainer]).errors_[i])
+//@   loop#1 invariant old(nonnil(ecOf(errTaker, heap[Row.ErrorContainer]))) ==> nonnil(ecOf(errTaker, heap[Row.ErrorContainer]))
+//@   loop#1 invariant forall j int :: {cbErrLog[j]} j < old(cbErrN) ==> cbErrLog[j] === old(cbErrLog[j])
+//@   loop#1 invariant old(ecOf(errTaker, heap[Row.ErrorContainer])) != nil ==> (ecOf(errTaker, heap[Row.ErrorContainer]).errors_.arr == old(ecOf(errTaker, heap[Row.ErrorContainer]).errors_.arr) && ecOf(errTaker, heap[Row.ErrorContainer]).errors_.off == old(ecOf(errTaker, heap[Row.ErrorContainer]).errors_.off) && ecOf(errTaker, heap[Row.ErrorContainer]).errors_.cap == old(ecOf(errTaker, heap[Row.ErrorContainer]).errors_.cap)) || fresh(ecOf(errTaker, heap[Row.ErrorContainer]).errors_)
+//@   loop#1 invariant old(ecOf(errTaker, heap[Row.ErrorContainer])) == nil && ecOf(errTaker, heap[Row.ErrorContainer]) != nil ==> fresh(ecOf(errTaker, heap[Row.ErrorContainer])) && fresh(ecOf(errTaker, heap[Row.ErrorContainer]).errors_)
+//@   loop#1 decreases len(cbList) - rangeindex
